@@ -35,7 +35,7 @@ SPEC = dict(
 META = dict(
     technique="Lean 4 theorems over an executable model of parser.go (all token lists) + channel transition system + differential correspondence with parser.Parse and goroutine accounting",
     level_text=("Proof on the model parser for every token list: result is a tree xor an error, never a nil dereference; a returned tree is "
-                "WellFormed (no nil child, per-kind child counts/kinds the consumers index unchecked); a fuel bound linear in the token "
+                "WellFormed (parse_wellformed, full: no nil child, known node names, token clause, per-kind child counts/kinds the consumers index unchecked); a fuel bound linear in the token "
                 "count is never exhausted; in the channel model the lexer goroutine is terminated at every return when the drain is present "
                 "(negative witness without). Model tied to parser.go by exhaustive-for-short / random-for-long differential runs."),
     level_note=("Trusted: Lean kernel + propext/Classical.choice/Quot.sound; the correspondence harness; the real lexer's token list is an input; "
